@@ -474,6 +474,7 @@ static Plan gen_plan(uint64_t runseed) {
     cfg.min_ops = 1;
     cfg.max_ops = rp.chance(1, 3) ? std::min(8, O.max_ops) : O.max_ops;
     cfg.w_query = 25; cfg.w_alloc = 50; cfg.w_crystal = 25;
+    if (rp.chance(1, 8)) set_focus(rp, cfg);
     gen_history(rp, cfg, p.tasks[0].ops, p.next_id);
   } else if (O.engine == "crystal") {
     p.locale = pick_locale(rp, false);
@@ -523,6 +524,7 @@ static Plan gen_plan(uint64_t runseed) {
       cfg.allow_builtin_mod = false;   // catalogue probes assume the shipped built-in collection
       cfg.w_query = 30; cfg.w_alloc = 45; cfg.w_crystal = 25;
       cfg.max_ops = std::min(O.max_ops, 200);
+      if (rp.chance(1, 8)) set_focus(rp, cfg);
       std::vector<Op> hist;
       gen_history(rp, cfg, hist, p.next_id);
       for (auto& o : hist) {
@@ -556,6 +558,7 @@ static Plan gen_plan(uint64_t runseed) {
     cfg.alloc_faults = O.batch == "sched_faults";
     cfg.file_faults = true;
     cfg.w_query = 40; cfg.w_alloc = 40; cfg.w_crystal = 20;
+    if (rp.chance(1, 3)) set_focus(rp, cfg);   // all tasks of the run concentrate on the same few entry points
     int maxo = nt <= 4 ? std::min(O.max_ops, 30) : std::max(3, std::min(O.max_ops, 120 / nt));
     for (int t = 0; t < nt; t++) {
       TaskPlan tp;
@@ -675,10 +678,15 @@ static Outcome evaluate(const Plan& p, bool count = true, bool keep_log = false)
     ser.sched.policy = SP_SERIAL;
     Outcome s = run_forked(ser);
     if (count) accumulate_counters();
+    bool serial_completed = SH->done != 0;
+    std::vector<Sig> serial_sigs;
     if (s.status != ST_OK) {
       // a defect that shows without any concurrency belongs to C04/C14/C16; report it as such, flagged serial
       for (auto& x : s.sigs) x.cls = "serial:" + x.cls;
-      return s;
+      if (s.status != ST_VIOL || !serial_completed) return s;
+      // the serial run finished (e.g. it only left memory behind): its results are still a valid reference,
+      // so the schedule search goes on and a concurrency defect behind the serial one is not hidden
+      serial_sigs = s.sigs;
     }
     Plan con = p;
     con.sched.task_events_hint.assign(s.task_events, s.task_events + p.tasks.size());
@@ -712,6 +720,21 @@ static Outcome evaluate(const Plan& p, bool count = true, bool keep_log = false)
           }
         }
       }
+    }
+    for (auto& x : serial_sigs) {
+      bool dup = false;
+      for (auto& y : c.sigs) dup = dup || y.key() == x.key() || ("serial:" + y.key()) == x.key();
+      if (!dup) c.sigs.push_back(x);
+    }
+    // the concurrent run repeats what the serial run already showed (same leak): keep only the serial-flagged copy
+    if (!serial_sigs.empty()) {
+      std::vector<Sig> keep;
+      for (auto& y : c.sigs) {
+        bool shadow = false;
+        for (auto& x : serial_sigs) shadow = shadow || ("serial:" + y.key()) == x.key();
+        if (!shadow) keep.push_back(y);
+      }
+      c.sigs.swap(keep);
     }
     if (!c.sigs.empty() && c.status == ST_OK) c.status = ST_VIOL;
     return c;
